@@ -1,6 +1,6 @@
 (* C09 — lemmas, part 4: assembly of the property theorems. *)
 From Coq Require Import List NArith Bool Lia ZifyN ZifyNat ZifyBool.
-From V Require Import C09.Model C09.Proofs C09.Proofs_paging C09.Proofs_inv.
+From V Require Import C09.Model C09.Proofs C09.Proofs_paging C09.Proofs_inv C09.Proofs_cache.
 Import ListNotations.
 Open Scope N_scope.
 
@@ -64,11 +64,11 @@ Proof. intros Hg. apply (run_inv_lemma W Wpos member ops init_state); auto. appl
 Lemma no_false_negative_lemma ops :
   guarded W member init_state ops = true ->
   let s := ensure W (run W member init_state ops) in
-  cache_fresh s ->
   forall flt n, n < lenN (chain s) -> block_matches (chain s) flt n <> [] ->
     cand_item W member s flt n = Some true.
 Proof.
-  intros Hg s Hf flt n Hn Hm.
+  intros Hg s flt n Hn Hm.
+  assert (Hf : cache_fresh s) by (apply (reachable_cache_fresh W Wpos member ops Hg)).
   destruct (no_false_negative_state W Wpos member bloom_sound s flt n (reachable_rinv ops Hg) Hf Hn)
     as [c [Hc Hcf]].
   destruct c; auto. specialize (Hcf eq_refl). contradiction.
@@ -92,11 +92,15 @@ Qed.
 Lemma paging_concat_lemma ops :
   guarded W member init_state ops = true ->
   let s := ensure W (run W member init_state ops) in
-  cache_fresh s -> chain s <> [] ->
+  chain s <> [] ->
   forall flt from to chunk limit fuel, 0 < chunk ->
   (length (chain s) + length (filter_spec (chain s) flt from to) < fuel)%nat ->
   pages W member fuel s flt from to chunk limit (0, 0) = Some (filter_spec (chain s) flt from to).
-Proof. intros Hg s. apply paging_concat_state. apply reachable_rinv. auto. Qed.
+Proof.
+  intros Hg s. apply paging_concat_state.
+  - apply reachable_rinv. auto.
+  - apply (reachable_cache_fresh W Wpos member ops Hg).
+Qed.
 
 Lemma restart_init_ok_all s g :
   rinv W s -> (g = false -> disk_ok_b W s = true) -> rinv W (ensure W (do_restart W s g)).
